@@ -27,15 +27,20 @@ func (c rconfig) name() string { b, _ := json.Marshal(c); return string(b) }
 type rsink struct {
 	app  []hk.SentRTP // written by application threads (pass-through)
 	back []hk.SentRTP // written by goroutines the interceptor started (retransmissions)
+	// n counts the writes; lastBack is the count at the most recent retransmission
+	n, lastBack int
 }
 
 //go:norace
 func (s *rsink) Write(h *rtp.Header, p []byte, _ interceptor.Attributes) (int, error) {
+	vsched.Yield() // a write to the transport is an observable event: other threads may run before it
 	rec := hk.SentRTP{Header: h.Clone(), Payload: append([]byte(nil), p...), Thread: vsched.CurrentID()}
+	s.n++
 	if vsched.CurrentIsApp() {
 		s.app = append(s.app, rec)
 	} else {
 		s.back = append(s.back, rec)
+		s.lastBack = s.n
 	}
 	return h.MarshalSize() + len(p), nil
 }
@@ -95,11 +100,19 @@ func rbody(c rconfig, ctx *hk.Ctx) {
 		}
 	})
 	var third *vsched.Thread
+	closedAt := -1 // number of writes that had reached the transport when Close returned
 	switch c.Third {
 	case "unbind":
 		third = vsched.GoApp("unbind", func() { s.icpt.UnbindLocalStream(s.info) })
 	case "close":
-		third = vsched.GoApp("close", func() { _ = s.icpt.Close() })
+		third = vsched.GoApp("close", func() { _ = s.icpt.Close(); closedAt = sink.n })
+	case "unbind+close":
+		// the usual teardown order: every stream is removed, then the interceptor is closed
+		third = vsched.GoApp("unbind+close", func() {
+			s.icpt.UnbindLocalStream(s.info)
+			_ = s.icpt.Close()
+			closedAt = sink.n
+		})
 	case "nack2":
 		feed2 := &rtcpFeed{next: nackFor(ssrcMain, []uint16{uint16(v0 + 1)})}
 		rd2 := s.icpt.BindRTCPReader(feed2)
@@ -116,6 +129,10 @@ func rbody(c rconfig, ctx *hk.Ctx) {
 	vsched.Quiesce() // resend goroutines finish
 	vsched.AcquireFinished()
 	if ctx.Failed() {
+		return
+	}
+	if closedAt >= 0 && sink.lastBack > closedAt {
+		ctx.Fail("C04:retransmission-after-close-returned", "Close had returned (after %d writes to the transport) when a retransmission was written (write %d)", closedAt, sink.lastBack)
 		return
 	}
 	// pass-through: the application's packets reach the transport exactly once, in order, unchanged
@@ -190,7 +207,10 @@ func rconfigs(tier string) []rconfig {
 	}
 	for _, size := range []int{1, 2, 4} {
 		for _, rtx := range []bool{false, true} {
-			for _, third := range []string{"", "unbind", "close", "nack2", "compound"} {
+			for _, third := range []string{"", "unbind", "close", "nack2", "compound", "unbind+close"} {
+				if third == "unbind+close" && size != 2 {
+					continue
+				}
 				if third == "compound" && size == 1 {
 					continue
 				}
@@ -198,7 +218,11 @@ func rconfigs(tier string) []rconfig {
 				if size == 4 {
 					w = 2 // packets stay in the window: exactly-once is demanded
 				}
-				out = append(out, rconfig{Size: size, RTX: rtx, Writes: w, Third: third, Bound: b})
+				bb := b
+				if third == "unbind+close" {
+					bb = b + 1 // the retransmission has to be held at the transport while two calls complete
+				}
+				out = append(out, rconfig{Size: size, RTX: rtx, Writes: w, Third: third, Bound: bb})
 			}
 		}
 	}
